@@ -11,8 +11,8 @@ PID = "C10"
 RULE = ("Real processes. Every cell of tool {assembler.py, file_util.py with a cassette source, file_util.py with a disk "
         "source} x switch {--to_bin, --to_cas, --to_dsk} x {--append, no append} x pre-existing target {absent, empty, "
         "cassette image of 1-3 files, disk image, raw binary, arbitrary bytes (random / truncated tape header / "
-        "disk-sized garbage / all zeros / all $FF / one byte repeated / zeros then one byte / disk-sized garbage with a blank first directory slot: 12 shapes, each in every cell), "
-        "cassette >= 161,280 bytes, a 40-track disk image (184,320 bytes); one disk variant stores a complete cassette image as a file, one a three-granule file on a scattered chain, one a machine-language file without data bytes} is enumerated (162 cells, 2 content variants each, 12 for arbitrary bytes); "
+        "disk-sized garbage / all zeros / all $FF / one byte repeated / zeros then one byte / disk-sized garbage with a blank first directory slot / a complete tape file followed by one that is cut off: 15 shapes, each in every cell), "
+        "cassette >= 161,280 bytes, a 40-track disk image (184,320 bytes); one disk variant stores a complete cassette image as a file, one a three-granule file on a scattered chain, one a machine-language file without data bytes} is enumerated (162 cells, 2 content variants each, 15 for arbitrary bytes); "
         "Hypothesis draws further contents for the cells and 2-4 invocation sequences on one path. Decision model: "
         "modification is permitted iff append and kind(existing) == kind being written, kind() decided by the "
         "independent readers (valid Disk BASIC image -> disk; tape grammar with >= 1 file -> cassette; zero-length -> "
@@ -31,7 +31,7 @@ EXHAUSTIVE = {"quick": ["all 162 cells of tool x switch x append x pre-existing 
 TOOLS = ["asm", "fu_cas", "fu_dsk"]
 SWITCHES = ["--to_bin", "--to_cas", "--to_dsk"]
 PRES = ["absent", "empty", "cas", "dsk", "rawbin", "arbitrary", "bigcas", "blankdsk", "dsk40"]
-N_ARBITRARY = 12
+N_ARBITRARY = 15
 PROGRAM = [" NAM PROG\n", " ORG $0E00\n", "START LDA #$41\n", " JSR $A30A\n", " BRA START\n", " FCB 1,2,3\n", " END START\n"]
 
 
@@ -188,6 +188,16 @@ def make_pre(pre, k):
             raw[0] = 0x12
             raw[dskref.DIR_OFFSET] = 0xFF if which != 10 else 0x00
             return bytes(raw), "other", []
+        if which in (12, 13, 14):
+            # one complete tape file followed by a second one that is cut off (inside a data block, at two places / before its
+            # end-of-file block): damaged content, not a cassette image
+            files = _small_files(rnd, 2, "cas")
+            files[1] = dict(files[1], data=bytes(rnd.randrange(256) for _ in range(600)))
+            one = make_cas(files[:1], lead=128)
+            two = make_cas(files, lead=128)
+            second = len(two) - len(one)
+            cut = {12: len(one) + second * 2 // 5, 13: len(one) + second * 7 // 10, 14: len(two) - 6}[which]
+            return two[:cut], "other", []
         if which == 8:        # zeros, then something
             return b"\x00" * rnd.choice([1, 128, 4000]) + bytes([rnd.randrange(1, 256)]), "other", []
         if which == 0:
